@@ -517,18 +517,18 @@ def r165(ctx, ut):
 
 
 # --------------------------------------------------------------------------- what _val builds, by cases
-def val_summary(prog, cname, given):
+def val_summary(prog, cname, given, mname='_val', extra_env=None):
     """Outcome of `<cname>._val` when exactly the parameters named in `given` are passed (the others, all optional, are None):
     {'build': text of the constructor call that creates the result, 'attrs': {attribute stored on the result: text}} for every path,
     or a string saying why it cannot be summarised.  E10 path summaries; conditional expressions on `p is None` are decided."""
     from ..pathsum import PathSum, Unsupported
-    fn = prog.method(cname, '_val', inherited=False)
+    fn = prog.method(cname, mname, inherited=False)
     params = [a.arg for a in fn.args.args[1:]]
     nd = len(fn.args.defaults)
     required = params[:len(params) - nd]
     if any(p not in given for p in required) and not all(p in params for p in given):
         return 'parameters do not match'
-    env = {}
+    env = dict(extra_env or {})
     for p in params:
         env[('isnone', p)] = p not in given
     try:
